@@ -8,6 +8,28 @@ import sys
 
 VERIF = os.path.dirname(os.path.dirname(os.path.abspath(__file__)))
 
+# rule families added after the first build (section 3 of DESIGN.md is the full list)
+EXTRA = {
+    "C03": "cached-attribute inlining with staleness check, interprocedural chain following of the acceptance expression",
+    "C04": "memo-invalidation obligations (tested-and-filled attributes vs. mutators of their dependencies)",
+    "C05": "must-pass-through of the finalising call on every return, sibling agreement of the warm-up predicate, exact-target expression check",
+    "C06": "constant evaluation of the renormalisation tolerance against sqrt(eps)",
+    "C07": "whole-record rebinding rule, dtype/squeeze lints on the evaluation chain, record sites in constructor calls, named-tuple consumers",
+    "C08": "payload-untouched rule for exported sections, NamedTemporaryFile / non-atomic move idioms",
+    "C09": "guard rule for seeding calls whose argument may be None, public defaults as provenance",
+    "C10": "log-domain discipline (no exponential of a shifted value), typed normalize=False results",
+    "C11": "count algebra over #finite/#infinite for the recorded fraction, must-record rule per batch, canonical skip-guard keys",
+    "C12": "normalisation typing of returned weights (interprocedural), list-accumulated return expansion",
+    "C13": "who-may-call rule for the user likelihood, batch-identity and mode-precedence rules, __setstate__ key agreement",
+    "C14": "labels-are-predict-of-the-stored-rows rules, bincount span and producer-loop skip lints, path facts avoiding a conditional fit",
+    "C15": "flow-based label returns, convexity/centring structure of the M-step, memo obligations, reliability-weight covariance lint",
+    "C16": "exactness side condition of the fold (no constant added to the unreduced coordinate), whole-array write rule",
+    "C17": "all-or-nothing commit (no raise reachable after an append), stored-shape inference for cache attributes",
+    "C18": "coercion/rebinding rule around validation, configuration plumbing and name-crossed positional argument lints, dispatch tables",
+    "C19": "bracket sign/regime rule for the root search, inverse-CDF clamp lint, polymorphic fills and closeness tests in the degree domain",
+    "C20": "scale typing of the volume metric, for-loop search forms, role-based anchors, reliability-weight covariance lint",
+}
+
 CLAIMS = {
     # id: (technique, level text, level note, design ref)
     "C08": (
@@ -152,7 +174,7 @@ def main():
                 "engine": "sa",
                 "level_claimed": {"category": "other", "text": text, "design_ref": ref},
                 "level_note": note,
-                "technique": "static analysis: " + tech,
+                "technique": "static analysis: " + tech + ("; " + EXTRA[pid] if pid in EXTRA else ""),
             }
         )
     na = []
